@@ -465,6 +465,9 @@ def rule_state_names(prog, rep, t, model):
         for p in c.patches:
             if p in ("ASH", "GLH", "HIP", "CYM", "CYX", "LYN", "TYM", "AR0"):
                 base = p
+        if c.state.startswith("in:"):
+            from ..cells import INPUT_VARIANTS
+            base = INPUT_VARIANTS[c.state[3:]][1]  # a variant named by the input file keeps its state
         if c.res == "HIS" and base == "HIS":
             a = set(c.atoms)
             base = "HIP" if {"HD1", "HE2"} <= a else "HID" if "HD1" in a else "HIE" if "HE2" in a else "?"
